@@ -242,3 +242,26 @@ Proof. intros Gx Gy. exact (deq_iff fixed x y Gx Gy (or_introl eq_refl)). Qed.
 Lemma deq_iff_nonempty w x y : good x = true -> good y = true -> abs x <> [] \/ abs y <> [] ->
   exists b, si_deep_equal w x y = Ret b None /\ (b = true <-> abs x = abs y).
 Proof. intros Gx Gy H. exact (deq_iff w x y Gx Gy (or_intror H)). Qed.
+
+(* ---- a foreign dynamic type: no effect, false, or "unsupported type" ---- *)
+Lemma foreign_refused :
+  (forall p, si_get_to AForeign p = Ret None None) /\
+  (forall w v p nid, si_set_with_buffer w AForeign v p nid = Ret (AForeign, nid) None) /\
+  (forall w o r p, si_compare w AForeign o r p = Ret None None) /\
+  (forall it p, si_loop AForeign it p = Ret [] None) /\
+  (forall p, si_length AForeign p = Ret NotWritten None) /\
+  (forall p, si_capacity AForeign p = Ret NotWritten None) /\
+  (forall w y, si_deep_equal w AForeign y = Ret false None) /\
+  (forall w x, good x = true -> si_deep_equal w x AForeign = Ret false None) /\
+  (forall d nid, si_copy_to AForeign d nid = Ret (d, nid) (Some EUnsupported)) /\
+  (forall x nid, good x = true -> si_copy_to x AForeign nid = Ret (AForeign, nid) (Some EUnsupported)) /\
+  si_reset AForeign = Ret AForeign None.
+Proof.
+  repeat split; intros; try reflexivity.
+  - destruct p as [|? [|? ?]]; reflexivity.
+  - destruct p as [|? [|? ?]]; reflexivity.
+  - destruct p as [|? [|? ?]]; reflexivity.
+  - destruct p; reflexivity.
+  - unfold si_deep_equal. rewrite (sp_good _ H). destruct (rep_of x); reflexivity.
+  - unfold si_copy_to. rewrite (sp_good _ H). destruct (rep_of x); reflexivity.
+Qed.
